@@ -1,0 +1,13 @@
+// +build verif
+
+package rockredis
+
+// VerifPointHook, when set, is called at named points of the checkpoint
+// (backup), purge and restore paths. Only compiled with the verif build tag.
+var VerifPointHook func(name string)
+
+func verifPoint(name string) {
+	if h := VerifPointHook; h != nil {
+		h(name)
+	}
+}
